@@ -186,12 +186,15 @@ def behaviours_from(run, proto, abstract, label, hub="detached"):
             for s in sorted(conc.plan):
                 mb = conc.plan[s]["mbs"][0]
                 init.append({"mb": mb, "subjs": ["%s-%d" % (mb, k) for k in (1, 2, 3)], "size": rng.choice([80, 900, 12000])})
+        if (i + run.seed) % 3 == 1:
+            # against the TLS listener a client without TLS comes and goes first (its handshake fails)
+            steps = [{"kind": "plainconn"}] + steps
         out.append({"id": "%s-%s-%d" % (proto, label, i), "proto": proto, "store": ["mem", "file"][(i + run.seed) % 2], "hub": hub, "names": BOXES,
                     "retention_off": (i + run.seed) % 5 == 0,
                     # one schedule in six runs with a long pause between the scanner's mailboxes (3 s): stopping must not wait for it
                     "retention_sleep_ms": 3000 if (i + run.seed) % 6 == 1 else 0,
-                    # a third of the SMTP schedules run against an SMTPS listener (ForceTLS): clients speak TLS, a hangup is a TCP reset
-                    "tls": proto == "smtp" and (i + run.seed) % 3 == 1,
+                    # a third of the schedules run against a TLS listener (ForceTLS): clients speak TLS, a hangup is a TCP reset
+                    "tls": (i + run.seed) % 3 == 1,
                     "init": init, "steps": steps, "_abs": seq,
                     # a schedule that can kill the process runs in a child process of the driver; its death is an event of the trace
                     "isolate": hub == "wired" or any(a["c"] == "accept" for a in seq)})
